@@ -282,6 +282,21 @@ func (b *TB) Ite(c, x, y *Term) *Term {
 	return b.mk("ite", x.sort, c, x, y)
 }
 
+// EqRaw builds an equality without using the recorded distinctness facts (needed
+// to put those very facts into the path condition).
+func (b *TB) EqRaw(x, y *Term) *Term {
+	if x == y {
+		return b.Bool(true)
+	}
+	if x.IsConst() && y.IsConst() {
+		return b.Eq(x, y)
+	}
+	if x.id > y.id {
+		x, y = y, x
+	}
+	return b.mk("=", SortBool, x, y)
+}
+
 func (b *TB) Eq(x, y *Term) *Term {
 	if x == y {
 		if x.sort.K != KFP { // fp = is structural equality in SMT-LIB, fine
